@@ -29,9 +29,10 @@ CLAIMED = {
         "DESIGN.md §5 C04",
     ),
     "C16": (
-        ["Expander", "Gen_Expander"],
+        ["Expander", "Gen_Expander", "Session", "MC_Session", "Gen_Session", "Trace_Session"],
         "TLA+ transcription of expand_recurse/expand_args/expand_parserfn/call_lua_sandbox with every expand_stack push/pop site explicit (state-threading twin); "
-        "TLC checks StackRestored on every (page, library, 16 option combinations); each case replayed on the real code incl. 300 repeated calls; push/pop event traces compared",
+        "TLC checks StackRestored on every (page, library, 16 option combinations); each case replayed on the real code incl. 300 repeated calls; push/pop event traces compared; "
+        "plus the per-page session state machine (Session.tla: start_page/start_section/start_subsection/messages/expand/parse/to_return as actions) model-checked, its behaviours replayed on one real context and recorded random sessions validated by TLC",
         "Bounded-exhaustive: TLC evaluates the twin on every case of the universe and checks that the expansion path is restored (the old early-return design is shown to violate it); "
         "the real expand() is run on every case, with Lua (offline stand-ins), failing Lua, time-outs and loops, and repeated 300x per page without start_page.",
         "Lua module behaviour (echo/err/pre/tpl/loop) is assumed as modelled; ustring/libraryUtil replaced by stand-ins; labels of the path are internal (event mismatches are DRIFT).",
@@ -55,7 +56,7 @@ CLAIMED = {
         "DESIGN.md §5 C14",
     ),
     "C11": (
-        ["Backup", "MC_Backup", "Gen_Backup", "Trace_Backup"],
+        ["Backup", "MC_Backup", "Gen_Backup", "Trace_Backup", "Pipeline", "Gen_Pipeline", "Trace_Pipeline"],
         "TLA+ crash model of the database files (main, -wal, -shm, backup, temp) with one action per file-visible step of open/backup/overwrite/commit/close and a Crash action at every step; "
         "TLC checks 'fresh => visible = expected'; the real flows are killed at every executed source line (sys.settrace + os._exit) in child processes, reopened in another process and "
         "compared with the model by observed file state; observed file-state traces validated by TLC",
@@ -81,7 +82,7 @@ CLAIMED = {
         "DESIGN.md §5 C17, notes/C17.md",
     ),
     "C12": (
-        ["Ingest", "MC_Ingest", "Gen_Ingest", "Trace_Ingest"],
+        ["Ingest", "MC_Ingest", "Gen_Ingest", "Trace_Ingest", "Pipeline", "MC_Pipeline", "Gen_Pipeline", "Trace_Pipeline"],
         "TLA+ model of dump ingestion as a fold (namespace/doc/testcases/content-model filter, add_page with includable-part reduction, default templates) over PageStore, checked by TLC against a declarative Expected(dump, selection); "
         "every TLC-enumerated abstract dump written as a real .xml.bz2 with nasty bodies/titles and ingested by the real parse_dump_xml + add_default_templates, get_all_pages compared exactly; recorded dumps over all language namespace tables validated by TLC",
         "Bounded-exhaustive over abstract dumps (<=3 pages quick, <=4 thorough) with real XML/bz2 round trip and byte comparison; namespace sweep over the shipped language folders.",
